@@ -15,7 +15,8 @@ EXTENDS SigAgg, TraceCommon
 tvars == <<vars, tr, l>>
 HasCall == TLen >= 2 /\ Trace[2].ev = "Call"
 TraceInit == /\ TrInit
-             /\ IF HasCall THEN InitWith(Trace[2].typ, Trace[2].vals) ELSE InitWith("randao", <<>>)
+             /\ IF HasCall THEN InitWithBN(Trace[2].typ, Trace[2].vals, IF "bn" \in DOMAIN Trace[2] THEN Trace[2].bn ELSE "up")
+                ELSE InitWith("randao", <<>>)
 TReset == IsEvent("Reset") /\ l = 1 /\ Ev.T = T /\ UNCHANGED vars
 TCall == IsEvent("Call") /\ l = 2 /\ Call
 TAgg == (\E v \in DOMAIN set : AggStep(v)) /\ Silent
